@@ -18,7 +18,7 @@ from vf.gens import inputs, reggen
 from vf.props import common
 from vf.refs import engine_model as em
 
-REAL_GENS = ("ctxdec", "nest", "layer", "seedmut", "soup", "url", "cmd", "matryoshka")
+REAL_GENS = ("ctxdec", "nest", "layer", "seedmut", "echo", "soup", "url", "cmd", "matryoshka")
 
 
 def plan(pid, tier, seed, exh=True, real=True, rand=True, stride3=6):
@@ -40,7 +40,7 @@ def plan(pid, tier, seed, exh=True, real=True, rand=True, stride3=6):
         for i in range(3 if quick else 5):
             shards.append({"name": f"rand{i}", "gen": "synth-rand", "seconds": secs})
     if real:
-        for g in REAL_GENS[: (4 if quick else len(REAL_GENS))]:
+        for g in REAL_GENS[: (5 if quick else len(REAL_GENS))]:
             shards.append({"name": g, "gen": g, "seconds": secs})
     return shards
 
@@ -234,6 +234,10 @@ def run_shard(pid, sel, spec, ctx):
         if not ctx.begin(case):
             continue
         judge_real(data, k, sel, ctx, case, r, label)
+        if r.random() < 0.2:
+            # the same text again on the same scanner: results must not depend on what was scanned before
+            ctx.count("rescans_of_same_input")
+            judge_real(data, k, sel, ctx, dict(case, rescan=True), r, label)
 
 
 def replay(pid, sel, case, ctx):
